@@ -1783,7 +1783,7 @@ class Contraction:
       inr = sym.sand(*[sym.sand(k >= 0, k < d) for k, d in zip(ks, self.contracted)])
       tv = self.term_fn(idx, ks)
       tz = sym._as_real_z(tv)
-      c.fact(z3.Or(term == 0, z3.And(inr.z, tz != 0)), "contraction: a non-zero sum has a non-zero term (witness index)")
+      c.fact(z3.Or(term == 0, z3.And(inr.z, tz != 0)), "contraction: a non-zero sum has a non-zero term (witness index)", lazy=True)
     return SReal(term)
 
 
